@@ -6,7 +6,8 @@
 // steps are hold, tryhold, mhold and wait; j is the index of the j-th gate step):
 //
 //	hold [a] [p] <ops>   HoldLock with a body made of ops g (getWaitCh, keep the handle), b (broadcast),
-//	                     s<v> (x = v); a: do not wait for the call to return; p: the body first parks,
+//	                     s<v> (x = v), and optionally a final x (the body then panics and the caller
+//	                     recovers: "ret t hold panic"); a: do not wait for the call to return; p: the body first parks,
 //	                     holding the mutex, until "unpark i" (or the next quiesce)
 //	tryhold <ops>        TryHoldLock with such a body
 //	mhold <ops>          HoldLockMaybeAsync with such a body
@@ -33,6 +34,7 @@ import (
 	"errors"
 	"fmt"
 	"math/rand"
+	"runtime"
 	"strconv"
 	"strings"
 	"sync"
@@ -46,6 +48,25 @@ import (
 )
 
 var errBoom = errors.New("boom")
+
+// errBodyPanic is the value a body whose program ends in x panics with.
+var errBodyPanic = errors.New("body panic")
+
+// onStackOf reports whether the calling goroutine is inside the method with the given name suffix.
+func onStackOf(suffix string) bool {
+	pcs := make([]uintptr, 32)
+	n := runtime.Callers(2, pcs)
+	fr := runtime.CallersFrames(pcs[:n])
+	for {
+		f, more := fr.Next()
+		if strings.HasSuffix(f.Function, suffix) {
+			return true
+		}
+		if !more {
+			return false
+		}
+	}
+}
 
 type call struct {
 	id     int
@@ -72,7 +93,7 @@ func progString(ops []string) string {
 	var out []string
 	for _, o := range ops {
 		switch {
-		case o == "g" || o == "b":
+		case o == "g" || o == "b" || o == "x":
 			out = append(out, o)
 		case strings.HasPrefix(o, "s"):
 			out = append(out, "s", o[1:])
@@ -85,8 +106,11 @@ func progString(ops []string) string {
 }
 
 func validOps(ops []string) bool {
-	for _, o := range ops {
+	for i, o := range ops {
 		if o == "g" || o == "b" {
+			continue
+		}
+		if o == "x" && i == len(ops)-1 {
 			continue
 		}
 		if strings.HasPrefix(o, "s") {
@@ -118,47 +142,59 @@ func exec(script []string, opt comp.Options) comp.Result {
 
 	// body builds the callback for a program; done (if non-nil) runs at the very end of the body
 	body := func(c *call, ops []string, done func()) func(func(), func() <-chan struct{}) {
+		panics := len(ops) > 0 && ops[len(ops)-1] == "x"
 		return func(bcast func(), getWaitCh func() <-chan struct{}) {
-			// a panic of the library inside the body (it may run in a goroutine of the library)
-			// becomes a history line the model does not know, never a crash of the harness
-			defer func() {
-				if r := recover(); r != nil {
-					log.Add("cbpanic %d", c.id)
-					if done != nil {
-						wg.Done()
+			func() {
+				// a panic of the library inside the body (it may run in a goroutine of the library)
+				// becomes a history line the model does not know, never a crash of the harness
+				defer func() {
+					if r := recover(); r != nil {
+						log.Add("cbpanic %d", c.id)
+						panics = false
+						if done != nil {
+							wg.Done()
+						}
+					}
+				}()
+				// the body is harness code running under the mutex of the Broadcast: its start and end
+				// marks let the exclusion clause ("bodies never overlap") be checked on the history
+				log.Add("cbin %d", c.id)
+				if c.unpark != nil {
+					select {
+					case <-c.unpark:
+					case <-time.After(2 * time.Second):
+						tag("park-timeout")
 					}
 				}
+				if c.widen > 0 {
+					time.Sleep(c.widen)
+				}
+				var hs []<-chan struct{}
+				for _, o := range ops {
+					switch {
+					case o == "g":
+						hs = append(hs, getWaitCh())
+					case o == "b":
+						bcast()
+					case o == "x":
+					default:
+						x, _ = strconv.Atoi(o[1:])
+					}
+				}
+				c.mu.Lock()
+				c.handles = hs
+				c.mu.Unlock()
+				log.Add("cbend %d", c.id)
+				if done != nil {
+					done()
+				}
 			}()
-			// the body is harness code running under the mutex of the Broadcast: its start and end
-			// marks let the exclusion clause ("bodies never overlap") be checked on the history
-			log.Add("cbin %d", c.id)
-			if c.unpark != nil {
-				select {
-				case <-c.unpark:
-				case <-time.After(2 * time.Second):
-					tag("park-timeout")
-				}
-			}
-			if c.widen > 0 {
-				time.Sleep(c.widen)
-			}
-			var hs []<-chan struct{}
-			for _, o := range ops {
-				switch {
-				case o == "g":
-					hs = append(hs, getWaitCh())
-				case o == "b":
-					bcast()
-				default:
-					x, _ = strconv.Atoi(o[1:])
-				}
-			}
-			c.mu.Lock()
-			c.handles = hs
-			c.mu.Unlock()
-			log.Add("cbend %d", c.id)
-			if done != nil {
-				done()
+			// the program ran; now the body fails. The caller recovers. A body of HoldLockMaybeAsync
+			// that runs in the library's own goroutine (slow path) cannot be recovered by anybody, so
+			// it only panics when it runs on the caller's stack.
+			if panics && (done == nil || onStackOf(".HoldLockMaybeAsync")) {
+				tag("body-panic")
+				panic(errBodyPanic)
 			}
 		}
 	}
@@ -167,10 +203,21 @@ func exec(script []string, opt comp.Options) comp.Result {
 		c.pub = true
 		c.mu.Unlock()
 	}
-	safely := func(id int, what string, f func()) {
+	// safely runs a library call; a deliberate body panic is the call's outcome ("ret t hold panic",
+	// after which the handles the body obtained are published), any other panic is a crash
+	safely := func(c *call, what string, f func()) {
 		defer func() {
 			if r := recover(); r != nil {
-				log.Ret(id, "%s panic", what)
+				if r == errBodyPanic {
+					log.Ret(c.id, "%s panic", what)
+					if what != "mhold" {
+						c.mu.Lock()
+						c.pub = true
+						c.mu.Unlock()
+					}
+					return
+				}
+				log.Ret(c.id, "%s crashed", what)
 			}
 		}()
 		f()
@@ -241,7 +288,7 @@ func exec(script []string, opt comp.Options) comp.Result {
 			go func() {
 				defer wg.Done()
 				defer close(retCh)
-				safely(c.id, "hold", func() {
+				safely(c, "hold", func() {
 					bc.HoldLock(body(c, ops, nil))
 					log.Ret(c.id, "hold")
 					publish(c)
@@ -261,7 +308,7 @@ func exec(script []string, opt comp.Options) comp.Result {
 			c := &call{cancel: func() {}, widen: widen()}
 			c.id = log.Inv("tryhold%s", progString(ops))
 			calls = append(calls, c)
-			safely(c.id, "tryhold", func() {
+			safely(c, "tryhold", func() {
 				ok := bc.TryHoldLock(body(c, ops, nil))
 				log.Ret(c.id, "tryhold %v", ok)
 				if ok {
@@ -279,7 +326,7 @@ func exec(script []string, opt comp.Options) comp.Result {
 			c.id = log.Inv("mhold%s", progString(ops))
 			calls = append(calls, c)
 			wg.Add(1) // released at the end of the body, which may run in a goroutine of the library
-			safely(c.id, "mhold", func() {
+			safely(c, "mhold", func() {
 				bc.HoldLockMaybeAsync(body(c, ops, func() {
 					c.mu.Lock()
 					if c.retd {
@@ -352,7 +399,7 @@ func exec(script []string, opt comp.Options) comp.Result {
 			wg.Add(1)
 			go func() {
 				defer wg.Done()
-				safely(c.id, "wait", func() {
+				safely(c, "wait", func() {
 					var err error
 					switch kind {
 					case "nilcb":
@@ -471,7 +518,7 @@ func exec(script []string, opt comp.Options) comp.Result {
 	go func() { wg.Wait(); close(done) }()
 	select {
 	case <-done:
-	case <-time.After(3 * time.Second):
+	case <-time.After(1500 * time.Millisecond):
 		tag("leaked-goroutine")
 	}
 	tagMu.Lock()
@@ -538,6 +585,9 @@ func gen(rng *rand.Rand, tier string) []string {
 		for {
 			p := genProg(rng)
 			if !disciplined || !strings.Contains(p, "s") || strings.Contains(" "+p+" ", " b ") {
+				if rng.Intn(12) == 0 {
+					p = strings.TrimSpace(p + " x") // the body panics after its program ran
+				}
 				return p
 			}
 		}
@@ -639,6 +689,22 @@ func gen(rng *rand.Rand, tier string) []string {
 				add(fmt.Sprintf("cancel %d", w))
 			}
 			add(fmt.Sprintf("open %d", g))
+		case r < 73 && ncalls+3 < maxCalls:
+			// a body panics after changing the state and broadcasting; waiters must still get through
+			v := rng.Intn(4)
+			if rng.Intn(2) == 0 {
+				add(fmt.Sprintf("wait ge %d", v))
+				waits = append(waits, ncalls)
+				ncalls++
+				add("settle")
+			}
+			add(fmt.Sprintf("%s s%d b x", []string{"hold", "tryhold", "tryhold", "mhold"}[rng.Intn(4)], v))
+			holds = append(holds, ncalls)
+			ncalls++
+			add(fmt.Sprintf("wait %s %d", []string{"eq", "ge"}[rng.Intn(2)], v))
+			waits = append(waits, ncalls)
+			ncalls++
+			add("settle")
 		case r < 80 && len(holds) > 0:
 			add(fmt.Sprintf("probe %d %d", holds[rng.Intn(len(holds))], rng.Intn(2)))
 		case r < 87 && len(waits) > 0:
@@ -696,6 +762,11 @@ func init() {
 			// path and run its body only afterwards; TryHoldLock must fail; HoldLock and Wait must queue
 			{"hold p g s1 b", "mhold s2 b g", "mhold b", "tryhold s3", "pause", "pause", "unpark 0", "settle", "probe 0 0", "probe 1 0", "quiesce"},
 			{"wait ge 5", "hold p s1 b", "mhold s5 b", "hold a g", "pause", "unpark 1", "quiesce"},
+			// a body panics after its program ran (the caller recovers): the mutex must have been released,
+			// a blocked waiter is woken and a new Wait with a satisfied predicate returns
+			{"wait ge 2", "settle", "tryhold s2 b x", "wait eq 2", "quiesce", "tryhold g", "probe 3 0", "quiesce"},
+			{"wait eq 1", "settle", "hold s1 b g x", "probe 1 0", "wait ge 1", "mhold s3 b x", "wait ge 3", "quiesce"},
+			{"hold a g x", "mhold g b x", "tryhold x", "wait ge 0", "hold s1 b", "quiesce"},
 			// waiter held before it takes the mutex for the first time
 			{"gate hold-enter 1", "wait eq 0 pre", "hit 0", "hold s1 b", "open 0", "quiesce"},
 			// waiter held right after its critical section (hold-exit comes before preblock)
